@@ -26,6 +26,10 @@ OpOk(e) ==
     [] e.op = "inv"   -> InvOk(e.a, e.r)
     [] e.op = "exp"   -> ExpOk(e.a, e.e, e.r)
     [] e.op = "canon" -> CanonOk(e.a, e.r)
+    [] e.op = "tryinv" -> TryInvOk(e.a, e.none, e.r)
+    [] e.op = "iszero" -> IsZeroOk(e.a, e.z)
+    [] e.op = "eq"    -> EqOk(e.a, e.b, e.z)
+    [] e.op = "eeq"   -> ExtEqOk(e.d, e.a, e.b)
     [] e.op = "red"   -> RedOk(e.n, e.r)
     [] e.op = "i64"   -> FromSignedOk(e.neg, e.mag, e.r)
     [] e.op = "eadd"  -> ExtAddOk(e.d, e.a, e.b, e.r)
